@@ -25,8 +25,8 @@ Proof. exact clean_cfg_validated. Qed.
 Print Assumptions C20_clean_graph_validated.
 
 (* a zero budget runs no pass at all *)
-Theorem C20_budget_zero_is_identity : forall p c,
-  propagate 0 0 p c = Ok (set_blocks c (c_blocks c)).
+Theorem C20_budget_zero_is_identity : forall p idom c,
+  propagate 0 0 p idom c = Ok (set_blocks c (c_blocks c)).
 Proof. exact budget_zero_identity. Qed.
 Print Assumptions C20_budget_zero_is_identity.
 
@@ -38,9 +38,9 @@ Theorem C20_values_fixpoint_stable : forall k p env bs bs' env',
 Proof. exact values_passes_fix. Qed.
 Print Assumptions C20_values_fixpoint_stable.
 
-Theorem C20_degrees_fixpoint_stable : forall k env bs bs' env',
-  pd_blocks env false bs = (false, bs', env') ->
-  degrees_passes (S k) env bs = (bs', env').
+Theorem C20_degrees_fixpoint_stable : forall k idom env bs bs' env',
+  pd_blocks idom env false [] bs = (false, bs', env') ->
+  degrees_passes (S k) idom env bs = (bs', env').
 Proof. exact degrees_passes_fix. Qed.
 Print Assumptions C20_degrees_fixpoint_stable.
 
@@ -62,14 +62,14 @@ Print Assumptions C20_mirror_validated_at_every_budget.
    by degree passes under budget kd - degree propagation never touches a value
    claim (it commutes with erasing all degree knowledge, and the validator only
    reads the erased graph) *)
-Theorem C20_propagate_validated_at_every_budget : forall kv kd p c c',
+Theorem C20_propagate_validated_at_every_budget : forall kv kd p idom c c',
   clean_cfg c = true -> ldefs_unique (all_stmts (c_blocks c)) = true ->
-  propagate kv kd p c = Ok c' -> vjust_cfg p c' = true.
+  propagate kv kd p idom c = Ok c' -> vjust_cfg p c' = true.
 Proof. exact propagate_validated_at_every_budget. Qed.
 Print Assumptions C20_propagate_validated_at_every_budget.
 
-Theorem C20_degree_passes_keep_value_claims : forall k env bs,
-  map serase (all_stmts (fst (degrees_passes k env bs))) = map serase (all_stmts bs).
+Theorem C20_degree_passes_keep_value_claims : forall idom k env bs,
+  map serase (all_stmts (fst (degrees_passes k idom env bs))) = map serase (all_stmts bs).
 Proof. exact degrees_passes_pres. Qed.
 Print Assumptions C20_degree_passes_keep_value_claims.
 
@@ -93,8 +93,8 @@ Print Assumptions C20_invariant_implies_validated.
    (a repeated visit finds the value it stored) and the field functions neither panic
    nor run out of fuel (their operands are canonical at every moment) *)
 Theorem C20_propagate_completes : forall p, prime p -> 2 < p -> Z.log2 p < 2 ^ 64 ->
-  forall kv kd c, clean_cfg c = true -> ldefs_unique (all_stmts (c_blocks c)) = true ->
-  exists c', propagate kv kd p c = Ok c'.
+  forall kv kd idom c, clean_cfg c = true -> ldefs_unique (all_stmts (c_blocks c)) = true ->
+  exists c', propagate kv kd p idom c = Ok c'.
 Proof. exact propagate_completes. Qed.
 Print Assumptions C20_propagate_completes.
 
@@ -120,10 +120,10 @@ Definition ex20_ret_claim (o : outcome cfg) : option (option vred) :=
   end.
 Example C20_example :
   clean_cfg ex20_graph = true /\ ldefs_unique (all_stmts (c_blocks ex20_graph)) = true /\
-  ex20_ret_claim (propagate 0 0 7 ex20_graph) = Some None /\
-  ex20_ret_claim (propagate 1 0 7 ex20_graph) = Some None /\
-  ex20_ret_claim (propagate 9 9 7 ex20_graph) = Some (Some (VField 3)) /\
-  forallb (fun k => match propagate k k 7 ex20_graph with Ok c => vjust_cfg 7 c | _ => false end) [0; 1; 2; 3; 4; 9]%nat = true.
+  ex20_ret_claim (propagate 0 0 7 [None] ex20_graph) = Some None /\
+  ex20_ret_claim (propagate 1 0 7 [None] ex20_graph) = Some None /\
+  ex20_ret_claim (propagate 9 9 7 [None] ex20_graph) = Some (Some (VField 3)) /\
+  forallb (fun k => match propagate k k 7 [None] ex20_graph with Ok c => vjust_cfg 7 c | _ => false end) [0; 1; 2; 3; 4; 9]%nat = true.
 Proof. vm_compute. repeat split; reflexivity. Qed.
 
 (* ------------------------------------------------------------------ *)
@@ -133,19 +133,22 @@ Proof. vm_compute. repeat split; reflexivity. Qed.
    so; declaration statements agree with the table; the array read by an
    element-wise update is a parameter, a signal/component declared by an earlier
    statement, or a local not assigned from that statement on; a local has one
-   defining assignment - all evaluated by the check on every graph the
-   implementation hands to propagation) and for EVERY number of degree passes k,
+   defining assignment; a phi occurs only as the whole right-hand side of an
+   assignment - all evaluated by the check on every graph the
+   implementation hands to propagation), for EVERY immediate-dominator table and
+   for EVERY number of degree passes k,
    the ranges Model.Propagate has attached after k passes are accepted by the
-   validator DegJustify.djust_cfg - hence upper bounds of the true polynomial
+   validator DegJustify.djust_cfg (which judges a phi with the control of its block
+   read off the final graph: control dependence, /repo D18) - hence upper bounds of the true polynomial
    degree, by C07 (Proofs.DegGraphProofs.justified_degrees_true).  As for values,
    the proof shows that every single statement visit preserves the invariant, so
    it covers every prefix of a pass. *)
 Require Import Model.DegJustify Model.DegWf Proofs.DegInvariant.
 
-Theorem C20_degrees_validated_at_every_budget : forall k c bs env,
+Theorem C20_degrees_validated_at_every_budget : forall k idom c bs env,
   deg_wf c = true ->
-  degrees_passes k (denv_init (c_kind c) (c_params c)) (c_blocks c) = (bs, env) ->
-  djust_cfg (set_blocks c bs) = true.
+  degrees_passes k idom (denv_init (c_kind c) (c_params c)) (c_blocks c) = (bs, env) ->
+  djust_cfg (set_blocks c bs) idom = true.
 Proof. exact degrees_validated_at_every_budget. Qed.
 Print Assumptions C20_degrees_validated_at_every_budget.
 
@@ -153,8 +156,8 @@ Print Assumptions C20_degrees_validated_at_every_budget.
    degree claims, targets, types, declared names and the shape of every expression
    untouched, so deg_wf still holds of their output), then degree passes under
    budget kd *)
-Theorem C20_propagate_degrees_validated_at_every_budget : forall kv kd p c c',
-  deg_wf c = true -> propagate kv kd p c = Ok c' -> djust_cfg c' = true.
+Theorem C20_propagate_degrees_validated_at_every_budget : forall kv kd p idom c c',
+  deg_wf c = true -> propagate kv kd p idom c = Ok c' -> djust_cfg c' idom = true.
 Proof. exact propagate_degrees_validated_at_every_budget. Qed.
 Print Assumptions C20_propagate_degrees_validated_at_every_budget.
 
@@ -188,9 +191,54 @@ Definition ex20d_ret_deg (o : outcome cfg) : option (option drange) :=
   end.
 Example C20_degrees_example :
   deg_wf ex20d_graph = true /\
-  forallb (fun k => match propagate k k 7 ex20d_graph with Ok c => djust_cfg c | _ => false end) [0; 1; 2; 9; 20; 40]%nat = true /\
-  forallb (fun k => match propagate 9 k 7 ex20d_graph with Ok c => djust_cfg c | _ => false end) [0; 1; 2; 9; 20; 40]%nat = true /\
-  ex20d_ret_deg (propagate 0 0 7 ex20d_graph) = Some None /\
-  ex20d_ret_deg (propagate 9 9 7 ex20d_graph) = Some None /\
-  ex20d_ret_deg (propagate 40 40 7 ex20d_graph) = Some (Some (DConst, DQuad)).
+  forallb (fun k => match propagate k k 7 [None] ex20d_graph with Ok c => djust_cfg c [None] | _ => false end) [0; 1; 2; 9; 20; 40]%nat = true /\
+  forallb (fun k => match propagate 9 k 7 [None] ex20d_graph with Ok c => djust_cfg c [None] | _ => false end) [0; 1; 2; 9; 20; 40]%nat = true /\
+  ex20d_ret_deg (propagate 0 0 7 [None] ex20d_graph) = Some None /\
+  ex20d_ret_deg (propagate 9 9 7 [None] ex20d_graph) = Some None /\
+  ex20d_ret_deg (propagate 40 40 7 [None] ex20d_graph) = Some (Some (DConst, DQuad)).
+Proof. vm_compute. repeat split; reflexivity. Qed.
+
+(* non-vacuity for control dependence: the four-block diamond
+     if (a == 1) { x.1 = 1 } else { x.2 = 2 }   x.3 = phi(x.1, x.2);   b <-- x.3
+   with a an input signal (the graph of Props.C07.exc_graph without any claim) meets
+   deg_wf; cut at 0, 1, 2, 3, 9 or 20 degree passes it is accepted by the validator;
+   at the fixpoint the condition a == 1 is known not to be constant, so the phi carries
+   constant..NON-QUADRATIC (not a constant upper end: which argument is taken depends
+   on the input), and so does the read of x.3 *)
+Definition ex20c_x (n : N) : vname := {| vn_name := [120%N]; vn_suffix := None; vn_version := Some n |}.
+Definition ex20c_a : vname := {| vn_name := [97%N]; vn_suffix := None; vn_version := None |}.
+Definition ex20c_b : vname := {| vn_name := [98%N]; vn_suffix := None; vn_version := None |}.
+Definition ex20c_graph : cfg :=
+  {| c_kind := KTemplate; c_params := [];
+     c_decls := [(ex20c_x 1, TLocal); (ex20c_x 2, TLocal); (ex20c_x 3, TLocal); (ex20c_a, TSigIn); (ex20c_b, TSigOut)];
+     c_blocks :=
+       [ {| b_index := 0%N; b_depth := 0%N; b_preds := []; b_succs := [1%N; 2%N];
+            b_stmts := [ SDecl ex20_m [ex20c_a] TSigIn [];
+                         SIf ex20_m (EInfix IEq (EVar ex20c_a ex20_k0) (ENum 1 ex20_k0) ex20_k0) 1%N (Some 2%N) ] |};
+         {| b_index := 1%N; b_depth := 0%N; b_preds := [0%N]; b_succs := [3%N];
+            b_stmts := [ SSubst ex20_m (ex20c_x 1) OpVar (ENum 1 ex20_k0) None (Some TLocal) ] |};
+         {| b_index := 2%N; b_depth := 0%N; b_preds := [0%N]; b_succs := [3%N];
+            b_stmts := [ SSubst ex20_m (ex20c_x 2) OpVar (ENum 2 ex20_k0) None (Some TLocal) ] |};
+         {| b_index := 3%N; b_depth := 0%N; b_preds := [1%N; 2%N]; b_succs := [];
+            b_stmts := [ SSubst ex20_m (ex20c_x 3) OpVar (EPhi [ex20c_x 1; ex20c_x 2] ex20_k0) None (Some TLocal);
+                         SSubst ex20_m ex20c_b OpSig (EVar (ex20c_x 3) ex20_k0) None (Some TSigOut) ] |} ] |}.
+Definition ex20c_idom : list (option N) := [None; Some 0%N; Some 0%N; Some 0%N].
+Definition ex20c_phi_deg (o : outcome cfg) : option (option drange * option drange) :=
+  match o with
+  | Ok c => match c_blocks c with
+            | [_; _; _; b] =>
+              match b_stmts b with
+              | [SSubst _ _ _ e _ _; SSubst _ _ _ e' _ _] => Some (expr_deg e, expr_deg e')
+              | _ => None
+              end
+            | _ => None
+            end
+  | _ => None
+  end.
+Example C20_control_example :
+  deg_wf ex20c_graph = true /\
+  forallb (fun k => match propagate 9 k 7 ex20c_idom ex20c_graph with Ok c => djust_cfg c ex20c_idom | _ => false end)
+          [0; 1; 2; 3; 9; 20]%nat = true /\
+  ex20c_phi_deg (propagate 9 0 7 ex20c_idom ex20c_graph) = Some (None, None) /\
+  ex20c_phi_deg (propagate 9 20 7 ex20c_idom ex20c_graph) = Some (Some (DConst, DNonQuad), Some (DConst, DNonQuad)).
 Proof. vm_compute. repeat split; reflexivity. Qed.
